@@ -1,4 +1,7 @@
 SPECIFICATION TSpec
 CONSTANTS DevNoticeInSpan = TRUE
+          DevClampShift = TRUE
+          DevC11HyphenToken = TRUE
+          DevC11CleanedNotice = TRUE
 POSTCONDITION TraceAccepted
 CHECK_DEADLOCK FALSE
